@@ -9,7 +9,7 @@ EXPLANATION = (
     "signal mask at every parent-side return of the forking function equals the mask at entry and is empty at "
     "every child-side return; process-wide effects (chdir, sigaction, environ, exec, dup2, _exit) occur only on "
     "the child side of fork; the child's disposition reset covers signals 1..31 on every path; the parent's "
-    "environment is only read. Not decided: nothing value-dependent is needed for this property.")
+    "environment is only read. Not decided: nothing value-dependent is needed for this property. M4g: what getenv returns is never written through or handed to a writing libc argument; M2x: the library never calls exit()/quick_exit().")
 ASSUMPTIONS = [
     "clang 14 parser/CFG and the fact extractor are correct",
     "pthread_sigmask/sigprocmask(SIG_SETMASK, new, old) install *new and store the previous mask in *old; the restoring call itself does not fail (excluded by the property)",
